@@ -615,6 +615,14 @@ class MetaClass(object):
             kwargs = dict()
             for key, value in link.key_map.items():
                 kwargs[key] = referential_attributes[value]
+                
+                # null values do not refer to anything
+                ty = (self.attribute_type(value) or '').upper()
+                if (kwargs[key] is None or 
+                    (ty == 'UNIQUE_ID' and kwargs[key] == 0) or
+                    (ty == 'STRING' and kwargs[key] == '')):
+                    kwargs = None
+                    break
             
             if not kwargs:
                 continue
